@@ -2,6 +2,13 @@
 PENDING_REASON = "static rules designed in DESIGN.md §3 but the check is not registered yet (under construction)"
 
 CLAIMS = {
+    "C02": {
+        "technique": "static analysis: forward flow of gated-subtree configuration reads (access-path evaluation, closure-aware) to observable uses with gate dominance / conjunction as the only discharges, callee-entered-under-gate summaries, gate dominance of artefact writers and of GEL / scheduler call sites, control dependence of the validator's materialisation",
+        "text": "Decides for the anchored gate consumers (T1 incl. its closure and cache selection, T2 cache selection, apply_quality, budget derivation, the reflection runner/backends/writer, parallel predicates): every value read from perf.*, perf.parallel.*, graph.*, t2.quality.*, t2.hybrid.* or scheduler.* reaches a branch, loop, call argument, return or store only where its gate is known true, "
+                "is conjoined with it, builds a cache key, or lives in a function every caller enters under the gate; the metrics gate conjoins perf.enabled and byte caches are selected only under it; gel.jsonl / scheduler events / the quality shadow trace / t3_reflection.jsonl and the GEL, budget-derivation and scheduler-load call sites of run_turn are gate-dominated, stale slice budgets are cleared; "
+                "the validator writes perf / t2.quality into the normalised tree only when the user supplied them.",
+        "note": "Not decided: equality of utterances, logs, snapshots and state with the run that omits the subtree (execution equality). Parallel switches read without perf.enabled (pinned by the test suite) select an execution strategy: their observable equivalence is C09/C10, reported as information. 3 known findings: reflection budgets under scheduler.budgets act with the scheduler gate off.",
+    },
     "C14": {
         "technique": "static analysis: taint of untrusted input values into may-raise sinks with total coercions / isinstance narrowing / try as sanitisers, alias (freshness) classification of every mutated dictionary with helper summaries, handler-shape check of the API variants, set-in-message / set-iteration detection, NaN-closure of float coercion, validator<->engine table agreement (hard subscripts, typed uses of config values)",
         "text": "Decides on configs/validate.py: every ordering comparison, arithmetic, len/int/float/sorted, iteration, string method or membership test applied to a value read from the input is behind a total coercion, a validator-stored coerced key (on all paths), an isinstance narrowing or try/except, and keys are stringified before the edit-distance helper; "
